@@ -7,7 +7,7 @@ import itertools
 
 from mc.checks import codec_matrix as CM
 from mc.core import explore as X
-from mc.core.runner import Result, pyasn1_site, exc_text
+from mc.core.runner import guarded, Result, pyasn1_site, exc_text
 from mc.model import x690 as M
 from mc.model import forms as F
 from mc.model import universe as U
@@ -348,7 +348,7 @@ def shard(tier, i, n, seed):
     for idx, sl, T, v in cases(tier):
         if (idx + seed) % n != i:
             continue
-        check_case(idx, sl, T, v, tier, R, states)
+        guarded(R, lambda: check_case(idx, sl, T, v, tier, R, states), {'slice': sl, 'T': T, 'v': v}, CM.type_features(T), idx)
         if idx % 1009 == seed % 1009:
             R.sample({'T': M.show_type(T), 'v': v, 'example_history': 'perm1-pos+values@1'})
     R.extra['states'] += len(states)
